@@ -50,6 +50,9 @@ async def amain(spec: dict) -> dict:
                  'prompt_notice': [], 'stdout': [], 'hooks': [], 'commands_sent': [], 'run_no': [],
                  'continuous': [], 'errors': []}
     statement: Any = spec['statement']
+    marker = Path(spec['tmpdir']) / 'nlv-marker'
+    if isinstance(statement, str):
+        statement = statement.replace('@@MARKER@@', str(marker))     # a file the script creates to tell the harness where it is
     kind = spec.get('statement_kind', 'str')
     if kind == 'path':
         p = Path(spec['tmpdir']) / 'script.py'
@@ -149,6 +152,8 @@ async def amain(spec: dict) -> dict:
 
         @hookimpl
         async def on_write_stdout(self, context: Any, event: Any) -> None:
+            if spec.get('slow_plugin_s'):
+                await asyncio.sleep(spec['slow_plugin_s'])        # a slow plugin: the relay falls behind the child
             await self._ev('on_write_stdout', context, event)
 
         @hookimpl
@@ -197,6 +202,16 @@ async def amain(spec: dict) -> dict:
         asyncio.create_task(sub('continuous', nl.subscribe_continuous_enabled())),
     ]
     await asyncio.sleep(0)
+    if sig and sig.get('after_marker'):
+        async def at_marker() -> None:
+            nonlocal signalled
+            while not marker.exists():
+                await asyncio.sleep(0.01)
+            await asyncio.sleep(sig.get('delay', 0.3))
+            signalled = True
+            rec['signal_sent_after_marker'] = {'events_delivered_so_far': n_events}
+            await getattr(nl, sig['kind'])()
+        tasks.append(asyncio.create_task(at_marker()))
     timeout = spec.get('timeout', 30)
     finished = False
     try:
